@@ -1,7 +1,11 @@
 package stack
 
 import (
+	"fmt"
+
 	"pgregory.net/rapid"
+
+	"verifharness/h"
 )
 
 type genOpts struct {
@@ -213,4 +217,111 @@ func genHist(t *rapid.T, o genOpts) Hist {
 		hst.Ops = append(hst.Ops, op)
 	}
 	return hst
+}
+
+// Volume: a history in which counts cross the sizes a few dozen operations never reach - hundreds of sessions open
+// at once for one subscriber, hundreds of closed records behind one long-lived session, thousands of other
+// subscribers served by the same process in between (more than 65536 with big) - around subscribers whose state is
+// checked like in any other history: a long-lived session opened first and used last, subscribers that come back
+// with a new session after everybody else, subscribers without money that ask for quota once the process is crowded.
+func genVolumeHist(t *rapid.T, big bool) Hist {
+	var hst Hist
+	cost := rapid.SampledFrom([]int{1, 3, 7}).Draw(t, "cost")
+	opens := rapid.IntRange(270, 330).Draw(t, "opens")
+	churn := rapid.IntRange(530, 600).Draw(t, "churn")
+	const early, broke = 12, 6
+	rich := [3]Acct{{cost, 1 << 40}, {cost, 1 << 40}, {cost, 5000}}
+	hst.Subs = []Sub{{Acct: rich}, {Acct: rich}, {Acct: rich}}
+	for i := 0; i < early; i++ {
+		hst.Subs = append(hst.Subs, Sub{Acct: [3]Acct{{cost, 100000}, {cost, 100000}, {cost, 100000}}})
+	}
+	for i := 0; i < broke; i++ {
+		hst.Subs = append(hst.Subs, Sub{Acct: [3]Acct{{cost, int64(i%2) * int64(cost) * 40}, {cost, 0}, {cost, 7}}})
+	}
+	hst.Subs = append(hst.Subs, Sub{Acct: rich})
+	const a, b, c, e0 = 0, 1, 2, 3
+	m0, d := e0+early, e0+early+broke
+	add := func(op Op) { hst.Ops = append(hst.Ops, op) }
+	on := func(rg, req, tot int32) []UU {
+		return []UU{{RG: rg, Req: req, Conts: []Cont{{Q: "online", Tot: tot, Pm: -1}, {Q: "offline", Tot: tot + 1, Up: 1, Down: 2, SSU: 3, Pm: -1}}}}
+	}
+	// the long-lived sessions
+	add(Op{K: "create", S: a, Name: "smf", UUs: []UU{{RG: 1, Req: 100}}})
+	add(Op{K: "update", S: a, UUs: on(1, 100, 40)})
+	add(Op{K: "create", S: b, Name: "smf", UUs: []UU{{RG: 1, Req: 100}}})
+	add(Op{K: "create", S: c, Name: "smf", UUs: []UU{{RG: 2, Req: 100}}})
+	add(Op{K: "update", S: c, UUs: on(2, 100, 30)})
+	// subscribers that get quota, use part of it and leave without a final report: the rest stays reserved
+	for i := 0; i < early; i++ {
+		add(Op{K: "create", S: e0 + i, Name: "smf", UUs: []UU{{RG: 1, Req: 100}}})
+		add(Op{K: "update", S: e0 + i, UUs: on(1, 100, 30)})
+		add(Op{K: "release", S: e0 + i})
+	}
+	// one subscriber with hundreds of sessions open at once
+	for i := 0; i < opens; i++ {
+		add(Op{K: "create", S: b, Name: fmt.Sprintf("smf%d", i%7)})
+	}
+	add(Op{K: "update", S: b, Sess: 0, UUs: on(1, 100, 20)})
+	add(Op{K: "update", S: b, Sess: opens - 5, UUs: on(2, 50, 10)})
+	add(Op{K: "update", S: b, Sess: 257, UUs: on(2, 50, 10)})
+	// one subscriber with hundreds of closed records behind its long-lived session
+	for i := 0; i < churn; i++ {
+		add(Op{K: "create", S: c, Name: "smf"})
+		if i%40 == 7 {
+			add(Op{K: "update", S: c, Sess: 1, UUs: on(3, 10, 1)})
+			add(Op{K: "update", S: c, Sess: 0, UUs: on(2, 100, 5)})
+		}
+		add(Op{K: "release", S: c, Sess: 1})
+	}
+	add(Op{K: "update", S: c, Sess: 0, UUs: on(2, 100, 30)})
+	// the process gets crowded: more than 1024 subscriber contexts
+	add(Op{K: "bystanders", S: a, N: 1100})
+	for i := 0; i < broke; i++ {
+		add(Op{K: "create", S: m0 + i, Name: "smf", UUs: []UU{{RG: 1, Req: 100}}})
+		add(Op{K: "update", S: m0 + i, UUs: []UU{{RG: 1, Req: 100, Conts: []Cont{{Q: "online", Tot: 0, Pm: 0}}}, {RG: 2, Req: 50}}})
+	}
+	// ... more than 10000
+	add(Op{K: "bystanders", S: a, N: 9500})
+	for i := 0; i < early; i++ {
+		add(Op{K: "create", S: e0 + i, Name: "smf", UUs: []UU{{RG: 1, Req: 100}}})
+		add(Op{K: "update", S: e0 + i, UUs: on(1, 100, 50)})
+		if i%2 == 0 {
+			add(Op{K: "release", S: e0 + i, Trig: "FINAL", UUs: on(1, 0, 10)})
+		}
+	}
+	for i := 0; i < broke; i++ {
+		add(Op{K: "update", S: m0 + i, UUs: []UU{{RG: 1, Req: 100, Conts: []Cont{{Q: "online", Tot: 0, Pm: 0}}}}})
+	}
+	if big {
+		// ... and more than 65536 records opened by the process
+		add(Op{K: "bystanders", S: a, N: 56000})
+	}
+	// everybody is still served
+	add(Op{K: "update", S: a, UUs: on(1, 100, 40)})
+	add(Op{K: "update", S: b, Sess: 0, UUs: on(1, 100, 20)})
+	add(Op{K: "update", S: b, Sess: opens / 2, UUs: on(3, 20, 5)})
+	add(Op{K: "update", S: c, Sess: 0, UUs: on(2, 100, 30)})
+	add(Op{K: "create", S: d, Name: "smf", UUs: []UU{{RG: 1, Req: 100}}})
+	add(Op{K: "update", S: d, UUs: on(1, 100, 60)})
+	add(Op{K: "update", S: d, UUs: on(1, 100, 60)})
+	add(Op{K: "release", S: d, Trig: "FINAL", UUs: on(1, 0, 10)})
+	add(Op{K: "release", S: b, Sess: 3})
+	add(Op{K: "release", S: a, Trig: "FINAL", UUs: on(1, 0, 10)})
+	add(Op{K: "create", S: a, Name: "smf", UUs: []UU{{RG: 1, Req: 100}}})
+	add(Op{K: "update", S: a, UUs: on(1, 100, 40)})
+	return hst
+}
+
+func volumeOf(j func(Hist) *h.Verdict, big bool) func(Hist) *h.Verdict {
+	return func(hst Hist) *h.Verdict {
+		v := j(hst)
+		v.Label("sessions-open-at-once>256")
+		v.Label("records-of-one-subscriber>512")
+		v.Label("subscribers-in-the-process>10000")
+		if big {
+			v.Label("records-opened-by-the-process>65536")
+		}
+		v.NonTrivial = true
+		return v
+	}
 }
